@@ -37,7 +37,16 @@ def check(model, tier):
     structure.r14_6_engine_of_node(ctx)
     structure.r14_9_engine_plumbing(ctx)
     expressions.r13_4_required_columns(ctx, rule="R14.7")
+    from ..rules import reqeval as _reqeval
+
+    _reqeval.r13_6_requirements(ctx, rule="R14.11")
+    from ..rules import merge as _merge
+
+    _merge.r05_1_simplify_discipline(ctx, rule="R14.12")
     structure.r06_1_flags(ctx, rule="R14.8")
+    from ..rules import commute as _commute
+
+    _commute.r04_4_set_formulas(ctx, rule="R14.10")  # columns_required of a (partial) join decides whether a moved operation stays valid upstream
     run.assume("every SQL-engine relation handed to the engine is a Select (R17.2, checked under C17)")
     run.assume("Transfer.simplify finds nothing to simplify on the own-engine no-op path (otherwise the call is not a no-op)")
     from ..rules.foundation import run_foundation
